@@ -133,6 +133,18 @@ fn unpublish(prog: &[Instruction], names: &[String]) -> Vec<Instruction> {
         .collect()
 }
 
+/// The program with `Publish <outputs>` inserted after every instruction that has outputs.
+pub fn interleave_publish(prog: &[Instruction]) -> Vec<Instruction> {
+    let mut out = vec![];
+    for i in prog {
+        out.push(i.clone());
+        if !i.outputs.is_empty() {
+            out.push(Instruction { operation: Operation::Publish, inputs: i.outputs.clone(), outputs: vec![] });
+        }
+    }
+    out
+}
+
 pub fn strip_publish(prog: &[Instruction]) -> Vec<Instruction> {
     prog.iter().filter(|i| i.operation != Operation::Publish).cloned().collect()
 }
@@ -319,6 +331,32 @@ pub fn run_case(c: &Case, with_mock: bool) -> Outcome {
         };
         tags.push(format!("cmp:{}", if cmp_ok { "ok".to_string() } else if cmp_s == "panic" { cmp_s.clone() } else { coarse(&cmp_s["err:".len()..]) }));
         sections.push(format!("cmp:{cmp_s}"));
+
+        // 3a. intermediate in-circuit structure: the in-circuit type (`CircuitValue::get_type`,
+        // for a BigUint the width `nb_bits()` derived from the limb bounds the gadget keeps) of
+        // the outputs of EVERY instruction, not only of the values the program publishes. One
+        // witness-free pass over the program with `Publish <outputs>` inserted after each
+        // instruction that has outputs; the recorded public-input types are those types in
+        // program order. A change of the limb bookkeeping of an operation whose result is
+        // consumed (compared, converted, reduced) but never published is seen here.
+        let shp_s = {
+            let p2 = interleave_publish(&c.prog);
+            match catch(|| {
+                ZkirRelation::from_instructions(&p2).map(|r2| {
+                    let res = dummy_synthesize_run(&MidnightCircuit::new(&r2, Value::unknown(), Value::unknown(), Some(8)));
+                    res.map(|()| r2.verif_public_input_types())
+                })
+            }) {
+                Ok(Ok(Ok(tys))) => format!("ok:{}", tys.iter().map(fmt_ty).collect::<Vec<_>>().join(",")),
+                Ok(Ok(Err(e))) => format!("err:{}", classify_plonk(&e)),
+                Ok(Err(e)) => format!("err:{}", classify_zkir(&e)),
+                Err(_) => "panic".to_string(),
+            }
+        };
+        if shp_s.starts_with("ok:") != cmp_ok {
+            fail("inserting Publish instructions changes the verdict of the in-circuit pass", json!({"cmp": cmp_s, "shp": shp_s}));
+        }
+        sections.push(format!("shp:{shp_s}"));
 
         // 3b. typing verdicts of the two passes: a program rejected by one interpreter for a
         // typing reason must be rejected by the other one as well. The only tolerated gap is the
